@@ -2,7 +2,7 @@
 from engine.facts import AnalysisBroken, atomic_op, atomic_ops, is_full_fence, has_acquire, has_release, SEQ_CST, RELAXED
 from engine.rules import (calls, calls_named, atomics_on, every_path_passes, last_member, oname, is_call_to, Defs,
                           resolve_cond_source, edges_where, dominated_by_edges, lockset, member_accesses, full_fence_pred,
-                          access_kind)
+                          access_kind, root_of)
 from rules.common import TBB_SRC
 
 UNITS = ['src/tbb/arena.cpp', 'src/tbb/task.cpp', 'src/tbb/task_dispatcher.cpp', 'src/tbb/concurrent_bounded_queue.cpp',
@@ -45,6 +45,64 @@ def run(facts, rep):
     d5_agreement(facts, rep)
     d6_advertise(facts, rep, fence)
     d7_sleep_list(facts, rep)
+    d1_scan_direction(facts, rep)
+
+
+def d1_scan_direction(facts, rep):
+    """A notifier that looks for a waiter to wake scans the wait set, a circular doubly linked list with a sentinel.  The scan
+    covers every waiter only if its start and its step agree: front() with ->next, last() with ->prev (the loop ends at end()).
+    A scan that starts at one end and steps towards that same end looks at one node only: when that node belongs to another
+    object (several objects share a monitor through the address hash) the waiter of the object being notified is never woken.
+    Decided by data flow: every redefinition of a variable that was initialised from L.front()/L.last() takes its value from
+    the next/prev link of that same variable."""
+    START = {'front': 'next', 'last': 'prev'}
+    n = 0
+    for fn in list(facts.fns.values()):
+        if not (fn.cls or '').startswith(R1 + 'concurrent_monitor_base') and not (fn.cls or '').startswith(R1 + 'circular_doubly_linked_list'):
+            continue
+        starts = {}
+        for pos, s, node, d in calls(fn):
+            if (d or {}).get('n') in START and (d or {}).get('cls', '').endswith('circular_doubly_linked_list_with_sentinel'):
+                starts[s] = START[d['n']]
+        if not starts:
+            continue
+        defs = Defs(fn)
+        # induction variables: declared / assigned from a front()/last() call
+        ivars = {}
+        for (vid, dn), val in defs.value_of.items():
+            if val is not None and fn.strip(val) in starts:
+                ivars.setdefault(vid, set()).add(starts[fn.strip(val)])
+        for vid, dirs in ivars.items():
+            steps = []
+            for (v2, dn), val in defs.value_of.items():
+                if v2 != vid or val is None or fn.strip(val) in starts:
+                    continue
+                # follow one level of copies: n = nxt; nxt = n->prev
+                cands = [val]
+                vn = fn.n(fn.strip(val))
+                if vn.get('k') == 'var':
+                    vals = defs.values(val) or []
+                    cands = [x for _, x in vals if x is not None]
+                for c in cands:
+                    cn = fn.n(fn.strip(c))
+                    if cn.get('k') == 'member' and cn.get('n') in ('next', 'prev'):
+                        base = fn.n(root_of(fn, fn.strip(c)))
+                        if base.get('k') == 'var' and base.get('v') == vid:
+                            steps.append((cn['n'], cn.get('ln')))
+            if not steps:
+                continue              # not a loop variable (e.g. a single look at the front node)
+            n += 1
+            want = sorted(dirs)
+            ok = len(dirs) == 1 and all(st == want[0] for st, _ in steps)
+            vname = next((nd.get('n') for nd in fn.nodes if nd.get('k') == 'var' and nd.get('v') == vid), '?')
+            rep.ob('D1', 'K10', fn, 'the wait-set scan over `%s` steps in the direction of its start (%s)' % (vname, '/'.join(
+                   'front->next' if w == 'next' else 'last->prev' for w in want)), ok,
+                   'the scan starts at %s but advances through ->%s (line %s): only one node is examined; a waiter of the notified object that '
+                   'is not that node sleeps forever' % ('/'.join('front()' if w == 'next' else 'last()' for w in want),
+                                                      ','.join(sorted(set(st for st, _ in steps))), steps[0][1]),
+                   key_extra='scan|%s' % vname)
+    if n < 4:
+        raise AnalysisBroken('fewer wait-set scans found than confirmed by reading (%d < 4)' % n)
 
 
 def d1_monitor(facts, rep, fence):
